@@ -135,6 +135,9 @@ func runStressB(t *testing.T, p *Plan) *Outcome {
 			}
 			switch op.K {
 			case "park_send":
+				if op.At > last {
+					last = op.At
+				}
 				w.drv.AtSig(us(op.At), "park_send", fmt.Sprintf("op/%d", op.ID), "", func() { gate.Park(); out.Fault("senders_held") })
 				continue
 			case "release_send":
@@ -213,6 +216,10 @@ func runStressB(t *testing.T, p *Plan) *Outcome {
 				}
 			}
 		}
+		// whatever the plan says (a minimised plan may have lost its release), no
+		// sender is held beyond the last operation
+		w.drv.Run(us(last) + time.Microsecond)
+		gate.Close()
 		w.drv.Run(us(last) + 2*time.Second)
 
 		w.mu.Lock()
